@@ -9,11 +9,18 @@ type Chooser struct {
 	prefix  []int
 	Choices []int
 	ns      []int
+	free    []bool
 }
 
 // Choose returns a value in [0,n). 0 is the default (no deviation); any other value costs one
 // deviation. During replay of a prefix an out-of-range choice is a hard error.
-func (c *Chooser) Choose(n int) int {
+func (c *Chooser) Choose(n int) int { return c.choose(n, false) }
+
+// ChooseFree is Choose for a point whose alternatives are not deviations (e.g. which thread runs
+// next when the running thread has blocked or finished).
+func (c *Chooser) ChooseFree(n int) int { return c.choose(n, true) }
+
+func (c *Chooser) choose(n int, free bool) int {
 	i := len(c.Choices)
 	v := 0
 	if i < len(c.prefix) {
@@ -24,14 +31,15 @@ func (c *Chooser) Choose(n int) int {
 	}
 	c.Choices = append(c.Choices, v)
 	c.ns = append(c.ns, n)
+	c.free = append(c.free, free)
 	return v
 }
 
 // Deviations so far.
 func (c *Chooser) Deviations() int {
 	d := 0
-	for _, v := range c.Choices {
-		if v != 0 {
+	for i, v := range c.Choices {
+		if v != 0 && !c.free[i] {
 			d++
 		}
 	}
@@ -99,10 +107,14 @@ var skipJudge bool
 func SkipJudge() bool { return skipJudge }
 
 func (t *Tree) branch(x *Chooser, from int, cost int, body func(*Chooser), ordinal *int, top bool) {
-	if cost >= t.Bound {
-		return
-	}
 	for i := from; i < len(x.Choices); i++ {
+		step := 1
+		if x.free[i] {
+			step = 0
+		}
+		if cost+step > t.Bound {
+			continue
+		}
 		for alt := 1; alt < x.ns[i]; alt++ {
 			if t.Cut || (t.Stop != nil && t.Stop()) {
 				t.Cut = true
@@ -118,7 +130,7 @@ func (t *Tree) branch(x *Chooser, from int, cost int, body func(*Chooser), ordin
 			prefix := append(append([]int{}, x.Choices[:i]...), alt)
 			t.Transitions++
 			y := t.run(prefix, body, true)
-			t.branch(y, i+1, cost+1, body, ordinal, false)
+			t.branch(y, i+1, cost+step, body, ordinal, false)
 		}
 	}
 }
